@@ -162,6 +162,11 @@ func main() {
 		restore = r.SubBudget(ev.Pick(r, 25*time.Second, 8*time.Minute))
 		xrun.Explore(r, name+"-just-restarted-empty", xrun.Opts{Kind: "restart", Bound: ev.Pick(r, 2, 3), Budget: 30, Recycle: 4, Param: restartworld.Cfg{Native: native, Faults: true, StartEmpty: true, ForceInterval: true, MaxLives: 2}})
 		restore()
+		if native {
+			restore = r.SubBudget(ev.Pick(r, 25*time.Second, 8*time.Minute))
+			xrun.Explore(r, name+"-sweeper-old-entries", xrun.Opts{Kind: "restart", Bound: ev.Pick(r, 1, 2), Budget: 30, Recycle: 4, Param: restartworld.Cfg{Native: true, Faults: true, StartEmpty: true, OldEntries: true, MaxLives: 2}})
+			restore()
+		}
 	}
 	for _, native := range []bool{true, false} {
 		name := map[bool]string{true: "a-loop-with-cleaner-native", false: "a-loop-with-cleaner-shadow"}[native]
